@@ -17,7 +17,7 @@ SPECS = {
         ],
     },
     "C15": {
-        "id": "C15", "runners": ["RunC15"],
+        "id": "C15", "runners": ["RunC15"], "translators": [translate.constants],
         "partial": ["C15_full (parse exact and complete w.r.t. the numeral denotation) and the format/parse round trip are evaluated as the specification oracle on every case, not yet proved"],
         "assumptions": [
             "only the truncating parser variants are modelled (the builder always constructs DecimalParser with truncated = true; the other three are reachable from tests only)",
@@ -26,7 +26,7 @@ SPECS = {
         ],
     },
     "C14": {
-        "id": "C14", "runners": ["RunC14"],
+        "id": "C14", "runners": ["RunC14"], "translators": [translate.unit_tables],
         "partial": ["text-level parse/format of date, time and timestamp strings is chrono's; modelled and validated by correspondence, round trip over text not a theorem", "completeness of parse_duration (every in-range span is accepted) is checked by the referee on every case, not proved"],
         "assumptions": [
             "date/time/timestamp text is parsed and formatted by chrono (external): its behaviour is modelled and validated by the correspondence run, not verified",
@@ -90,7 +90,7 @@ SPECS = {
         "assumptions": ["documented exclusions are not counted: sample strings that only look like dates under guess_dates, unsigned values above the signed 64-bit range mixed with signed numbers under coerce_numbers, null for an enum-typed position", "the tracer model itself is compared with the crate in the C07/C08 runs (RunC07)"],
     },
     "C09": {
-        "id": "C09", "runners": ["RunC09"],
+        "id": "C09", "runners": ["RunC09"], "translators": [translate.schema_tables],
         "info_meaning": "[cases read by the parser model; cases whose tree is compared with the printer model; cases the crate accepts]",
         "assumptions": ["identifiers and white space of the type mini language are modelled for ASCII text (the printer only emits ASCII names); trees with non-ASCII text are judged by the Rust-side round trips only", "time zone text is printed with Rust's {:?}: the model covers quote and backslash escapes; control and non-ASCII characters (\\u{..} escapes) are judged by the Rust-side round trips", "arrow / arrow2 field conversions are marrow's (external): differential only"],
     },
@@ -105,13 +105,13 @@ SPECS = {
         "assumptions": ["documented lossy conversions (float narrowing, integer to float, decimal truncation to scale) are the ISkip cells of interp and are not judged here", "malformed temporal / decimal strings are judged in C14 / C15; offsets overflow of 32-bit lists needs 2^31 elements and is covered by the theorem on increment_last only"],
     },
     "C16": {
-        "id": "C16", "runners": ["RunC16"],
+        "id": "C16", "runners": ["RunC16"], "translators": [translate.constants],
         "partial": ["a theorem shows that the model cannot panic; that the Rust cannot is as good as the faithfulness of the model at each program point, which the other checks' correspondence runs and this sweep sample", "from_type (budget / depth limit) is not modelled: recursive and deep types are covered by the sweep only"],
         "info_meaning": "[calls of the adversarial sweep]",
         "assumptions": ["the harness is built with overflow-checks and debug-assertions on, so arithmetic overflow is a panic", "a call taking more than 5 s counts as unbounded running; the whole run has a watchdog"],
     },
     "C08": {
-        "id": "C08", "runners": ["RunC08"], "translators": [translate.tracer_tables],
+        "id": "C08", "runners": ["RunC08"], "translators": [translate.tracer_tables, translate.constants],
         "info_meaning": "[type x option-set cases; overwrite cases]",
         "assumptions": ["the zoo samples serde_derive (which Deserialize / Serialize calls a derived impl makes); it does not verify it", "the type description Ty states which serde requests a derived / std Deserialize impl makes (struct -> deserialize_struct with its field names, enum -> deserialize_enum and the variant accessor of the payload kind, Vec -> one element, map -> one entry): this is sampled on the zoo, not verified against serde_derive", "from_type cannot trace maps as structs (documented error); from_samples sorts such fields: the two are not compared for map types under map_as_struct"],
     },
